@@ -1,6 +1,7 @@
 """C02 - simulated trajectories obey mass, time, distance and route bookkeeping.
 
-Deciding step: complete enumeration of five declared finite sub-lattices of flights on the real
+Deciding step: complete enumeration of declared finite sub-lattices of flights (single missions on
+builders shared inside a worker, and sequences of 2-3 missions on one builder created by the case) on the real
 `LegacyBuilder(options, legacy_options).fly(performance_model, mission)`; every returned
 trajectory is handed to the invariant monitor of `vf.ref.c02_monitor` (independent geodesic,
 altitude schedule, monotonicity, resampling reference); every raise is classified.
